@@ -307,6 +307,7 @@ func caseC10(c *Ctx) {
 	if got.Hang || got.StepCap {
 		c.Failf("C10:no-result:"+cls, "massive mode did not return (hang=%v stepcap=%v); simple mode returned %s", got.Hang, got.StepCap, errStr(ref.Err))
 	}
+	c.failLateEffects("C10", s.op, got)
 	if (ref.Err == nil) != (got.Err == nil) {
 		which := "simple=ok,massive=error"
 		if ref.Err != nil {
@@ -501,6 +502,7 @@ func caseC11(c *Ctx) {
 	if len(got.Races) > 0 {
 		c.Failf("C11:race:"+raceSig(got.Races[0]), "%s", strings.Join(got.Races, "\n"))
 	}
+	c.failLateEffects("C11", s.op, got)
 	// result under cancellation
 	if got.CancelFired && got.CancelBeforeReturn {
 		c.st.Count("cancel-before-return")
